@@ -1097,6 +1097,28 @@ func PipelineCases() []*Case {
 		f.Imports = []Import{{Pkg: "j5.list.v1"}}
 		add("list-method", f)
 	}
+	// a row object with several fields of one object type that carries list rules: whatever a list
+	// request offers below one of them it must offer below the others
+	{
+		f := file("t/v1", "a")
+		stamp := obj("Stamp",
+			&Field{Name: "at", T: T(TTimestamp), Attrs: []string{"listRules.filtering.filterable = true", "listRules.sorting.sortable = true"}},
+			&Field{Name: "by", T: T(TString), Attrs: []string{"listRules.searching.searchable = true"}},
+			&Field{Name: "actorId", T: T(TKeyID62), Attrs: []string{"listRules.filtering.filterable = true"}},
+			&Field{Name: "count", T: T(TInt64), Attrs: []string{"listRules.filtering.filterable = true", "listRules.sorting.sortable = true"}},
+		)
+		f.Add(stamp)
+		item := obj("Item", fld("created", RefTo(stamp, "")), fld("updated", RefTo(stamp, "")), &Field{Name: "name", T: T(TString), Attrs: []string{"listRules.searching.searchable = true"}}, fld("archived", RefTo(stamp, "")))
+		f.Add(item)
+		listRef := func(name, file string) *Type {
+			return &Type{K: TObject, Ref: &Ref{Qualifier: "j5.list.v1", To: &Decl{Kind: DObject, Name: name, File: &File{Dir: "j5/list/v1", Name: file}}}}
+		}
+		f.Add(&Service{Name: "Item", BasePath: "/t/v1", Methods: []*Method{{Name: "ListItems", Verb: "GET", Path: "/items", HasResponse: true,
+			Request:  []*Field{{Name: "page", T: listRef("PageRequest", "page")}, {Name: "query", T: listRef("QueryRequest", "query")}},
+			Response: []*Field{fld("items", ArrayOf(RefTo(item, ""))), {Name: "page", T: listRef("PageResponse", "page")}}}}})
+		f.Imports = []Import{{Pkg: "j5.list.v1"}}
+		add("list-twins:created,updated,archived", f)
+	}
 	// list-shaped requests on methods whose response is not a list: no response at all, an empty one,
 	// one without an array, one whose array holds scalars
 	for _, shape := range []string{"no-response", "empty-response", "no-array", "scalar-array", "two-arrays"} {
